@@ -385,7 +385,8 @@ PROPS["C17"] = {
     "rule": ("Documents = a generated library-valid Spec document (all optional members, <= 3 devices) with k in {0,1,1,1,2,3} mutations at "
              "drawn tree positions: remove a member, replace a value by another JSON type (string, empty string, number, bool, null, {}, [], "
              "wrapped in a list / object), replace a number by one of 19 boundary values (-1, 0, 2^32-1, 2^32, +-(2^53+1), 2^63-1, 2^63, "
-             "-2^63, -2^63-1, 2^64-1, 2^64, 2^70, 1.5, -0.5, 1.0), add an extra member, add an annotation with a malformed or odd key at spec "
+             "-2^63, -2^63-1, 2^64-1, 2^64, 2^70, 1.5, -0.5, 1.0; numbers whose float64 rounding crosses a bound; numbers float64 cannot hold at all: "
+             "1e400, -1E+999, 1e-400, 10^320, a 310-digit decimal), add an extra member, add an annotation with a malformed or odd key at spec "
              "or device level, or replace the root. Every document is encoded as JSON and as block YAML (used only if yaml.v3 decodes it "
              "back to the identical tree). Oracle: model.Draft07 - a draft-07 evaluator written for this harness that reads "
              "/repo/schema/schema.json and defs.json at run time. For documents whose annotations are well-formed, ValidateData(json), "
@@ -394,7 +395,7 @@ PROPS["C17"] = {
              "an externally loaded copy of the shipped files; for malformed annotations only JSON-vs-YAML equality per entry point; the "
              "none, NOP and nil schemas must accept every object document through every entry point; sentinels: builtin rejects {} and "
              "'devices: 3'. large unit: documents of 0.5 MiB, 1 MiB -/+ 4 KiB (thorough: 2.5 and 6 MiB), as many devices or one long string, "
-             "valid / invalid in the last device / invalid root member, through the same entry points. Non-trivial iff the document is invalid by exactly one mutation, or has an integer beyond 2^53, or is an "
+             "valid / invalid in the last device / invalid root member, through the same entry points. Non-trivial iff the document is invalid by exactly one mutation, or has an integer beyond 2^53 or a number outside float64, or is an "
              "unmutated valid document; distinct = distinct document trees."),
     "assumptions": ["non-object roots are only checked against the builtin/external schema (the statement's domain lists object documents for the none/nil clause)",
                     "the model ignores unknown keywords as draft-07 requires (the shipped '\"ref\": \"#definitions/Env\"' typo is therefore no constraint)",
@@ -406,7 +407,7 @@ PROPS["C17"] = {
         "note": "trusted: model/draft07.go (draft-07 semantics), cross-validated in every run against python jsonschema Draft7Validator (unit model-crosscheck; skipped and labelled if python3-vt is missing)",
         "technique": "property-based testing: differential against a reference draft-07 evaluator; JSON/YAML metamorphic equality; entry-point differential",
     },
-    "health": {"quick": {"model-valid": 2000, "model-invalid": 5000, "annotations-malformed": 500, "integer-beyond-2^53": 1000, "in-memory-spec": 1000, "yaml-encodable": 10000}},
+    "health": {"quick": {"model-valid": 2000, "model-invalid": 5000, "annotations-malformed": 500, "integer-beyond-2^53": 1000, "number-outside-float64": 300, "in-memory-spec": 1000, "yaml-encodable": 10000}},
     "units": [
         {"name": "regress", "mode": "plain", "run": "TestC17Regress"},
         {"name": "rapid", "mode": "rapid", "run": "TestC17Rapid", "checks": {"quick": 24000, "thorough": 480000}},
@@ -440,7 +441,8 @@ PROPS["C18"] = {
 
 PROPS["C19"] = {
     "level": "exploration",
-    "rule": ("cdi unit: a generated layout (1..4 existing directories, repeats and other spellings of one path allowed, with valid / invalid / "
+    "rule": ("cdi unit: a generated layout (1..4 directories, in one layout of four some may be missing - the library then reports "
+             "directory-level errors too -, repeats and other spellings of one path allowed, with valid / invalid / "
              "ignored entries, shadowing and conflicts; Specs carry hooks, device nodes, mounts, GIDs, RDT) "
              "is passed as '-d a,b' or as repeated --spec-dirs, with --schema builtin / none / default; 1..3 drawn sub-commands per layout "
              "among devices, devices -v -o json|yaml, vendors, classes, specs, dirs, validate, inject <oci file json|yaml> <1..3 glob "
